@@ -1168,7 +1168,51 @@ def c05_checks(repo: Repo, tier: str, res: CheckResult, seed: int) -> None:
                                          f"the flag `{flag}` suppresses repeated missing-key reports for the nodes {sorted(nodes_)}: "
                                          "after one mapping reported its missing keys, missing keys of the other mappings are dropped"))
             # every rejection in ALL mode is collected or raised, never conditional on a flag of another node: checked above
+            # a TypeLoadError about the nested node at path p unwinds to the nearest `except TypeLoadError`: that try may only
+            # cover code of the subtree of p, otherwise the later siblings of p are skipped and their errors are lost
+            parents_ = {}
+            for pn in ast.walk(prog.fn):
+                for ch in ast.iter_child_nodes(pn):
+                    parents_[id(ch)] = pn
+            tries = [t for t in ast.walk(prog.fn) if isinstance(t, ast.Try)
+                     and any(h.type is not None and norm(h.type) == "TypeLoadError" for h in t.handlers)]
+            for cls, path, _trail, line, _txt in S.rejects:
+                if cls != "TypeLoadError" or not path:
+                    continue
+                # nearest enclosing try (by body) of the raising statement
+                stmt = next((x for x in ast.walk(prog.fn) if isinstance(x, ast.stmt) and getattr(x, "lineno", -1) == line), None)
+                encl = None
+                cur = stmt
+                while cur is not None and encl is None:
+                    par = parents_.get(id(cur))
+                    if isinstance(par, ast.Try) and par in tries and any(cur is b for b in par.body):
+                        encl = par
+                    cur = par
+                if encl is None:
+                    continue
+                lo, hi = encl.body[0].lineno, max(getattr(x, "end_lineno", 0) or 0 for b in encl.body for x in ast.walk(b))
+                outside = sorted({r.field_id for r in S.reads if r.path is not None and lo <= r.lineno <= hi
+                                  and tuple(r.path)[:len(path)] != tuple(path)})
+                if outside:
+                    res.add(_gen_finding("C05", "ALL.generated-type-error-unwinds-siblings", prog, line,
+                                         f"TypeLoadError of a depth-{len(path)} node caught {len(path) - len(_common_prefix(path, outside, S))} level(s) up",
+                                         f"the TypeLoadError about the node at {list(path)} is caught by a try that also covers the fields "
+                                         f"{outside} outside that node: when the node has the wrong type the code of those fields is skipped "
+                                         "and their errors are missing from the collected group"))
     res.count("TRAIL.generated-programs", n, 300)
+
+
+def _common_prefix(path, outside_fields, S) -> tuple:
+    """longest prefix of `path` under which every field of outside_fields lies (for the message only)"""
+    best = tuple(path)
+    for r in S.reads:
+        if r.field_id in outside_fields and r.path is not None:
+            p = tuple(r.path)
+            k = 0
+            while k < len(best) and k < len(p) and best[k] == p[k]:
+                k += 1
+            best = best[:k]
+    return best
 
 
 def c19_checks(repo: Repo, tier: str, res: CheckResult, seed: int) -> None:
